@@ -150,6 +150,8 @@ def main(argv=None):
     side = {}
     if spec.get('rx'):
         side['rx'] = start_subprocess([PY_VENV, '-m', 'pyvc.rxcheck', 'contracts.rxspecs'] + list(spec['rx']))
+    if spec.get('bind'):
+        side['bind'] = start_subprocess([PY_VENV, '-m', 'pyvc.bindcheck', 'contracts.bindings'] + list(spec['bind']))
     standin_out = os.path.join(HERE, 'evidence', '.%s.standin.json' % prop)
     if spec.get('standin') and not a.no_standin:
         if os.path.exists(standin_out):
@@ -336,6 +338,31 @@ def main(argv=None):
                 undecided.append({'function': e['id'], 'obligation': oid, 'reason': c.get('reason')})
         rx_ev.append(e)
 
+    # binding obligations (finite facts about live objects)
+    bind_ev = []
+    if 'bind' in side:
+        out, err = side['bind'].communicate(timeout=300)
+        try:
+            bind_ev = json.loads(out)
+        except Exception:
+            undecided.append({'function': 'bindings', 'reason': (err or out)[-1500:]})
+        for e in bind_ev:
+            n_obl += 1
+            oid = e['id'] + '#bind'
+            if e['status'] == 'discharged':
+                n_dis += 1
+            else:
+                rp = write_replay(prop, oid, {
+                    'property': prop, 'obligation': oid, 'expr': e['expr'], 'expected': e.get('expected'),
+                    'observed': e.get('observed'),
+                    'replay_cmd': 'cd /verif && %s -m pyvc.bindcheck contracts.bindings %s' % (PY_VENV, e['id'])})
+                kf = match_known(known, oid, None)
+                if kf:
+                    known_hits.append(kf)
+                else:
+                    violations.append({'what': '%s: live object is %s, expected %s' % (
+                        oid, e.get('observed'), e.get('expected')), 'replay': rp, 'input': e['expr']})
+
     # bounded stand-in
     standin_ev = None
     if standin is not None:
@@ -370,6 +397,7 @@ def main(argv=None):
                          'assumed contracts listed under assumed_contracts'],
         'functions': functions_ev,
         'regex_obligations': rx_ev,
+        'binding_obligations': bind_ev,
         'backends': backends, 'solver_time_s': round(solver_time, 2),
         'undecided': undecided, 'bounded': standin_ev,
         'assumed_contracts': assumed,
